@@ -20,7 +20,8 @@ def named_program(rng, depth):
         if r < 0.55: return struct(d - 1)
         if r < 0.65: return A.Sequence(*[A.Renamed(n, member(d - 1, names)) for n in "uv"])
         if r < 0.75: return A.Array(rng.choice([1, 2, 3]), member(d - 1, names))
-        if r < 0.82: return A.Prefixed(A.Alias("Byte"), struct(d - 1))
+        if r < 0.79: return A.Prefixed(A.Alias("Byte"), struct(d - 1))
+        if r < 0.82: return A.Prefixed(rng.choice([A.VarInt, A.Alias("Int16ub"), A.BytesInteger(A.T("_params", "w"))]), struct(d - 1), incl=True)   # the length field's own size enters the arithmetic
         if r < 0.88: return A.FixedSized(rng.choice([4, 6, 8]), struct(d - 1))
         if r < 0.94: return A.IfThenElse(A.Bin(">=", A.T("a"), A.C(1)) if "a" in names else A.C(True), member(d - 1, names), member(d - 1, names))
         return A.Switch(A.T("a") if "a" in names else A.C(1), [(0, member(d - 1, names)), (1, member(d - 1, names))], default=member(d - 1, names))
